@@ -39,3 +39,41 @@ func init() {
 			"\t\ttx  = db.getInstance().Session(&Session{Context: db.Statement.Context, NewDB: db.clone == 1})", "\t\ttx  = db.getInstance().Session(&Session{Context: db.Statement.Context, NewDB: true})"}}},
 	)
 }
+
+func init() {
+	addMutants(
+		// C11.key-verbatim
+		Mutant{Name: "c11-identity-key-trimmed", Property: "C11", Rule: "C11.key-verbatim", Edits: []Edit{{"utils/utils.go",
+			"\treturn strings.Join(results, \"_\")", "\treturn strings.TrimSpace(strings.Join(results, \"_\"))"}}},
+		Mutant{Name: "n125-identity-key-join-in-a-local", Property: "*", Rule: "NEUTRAL", Edits: []Edit{{"utils/utils.go",
+			"\treturn strings.Join(results, \"_\")", "\tkey := strings.Join(results, \"_\")\n\treturn key"}}},
+		// C12.chain-result
+		Mutant{Name: "c12-association-select-result-discarded", Property: "C12", Rule: "C12.chain-result", Edits: []Edit{{"callbacks/associations.go",
+			"\tif len(selects) > 0 {\n\t\ttx = tx.Select(selects)\n\t}", "\tif len(selects) > 0 {\n\t\ttx.Select(selects)\n\t}"}}},
+		// C13.assoc-distinct
+		Mutant{Name: "c13-many2many-saves-the-full-list", Property: "C13", Rule: "C13.assoc-distinct", Edits: []Edit{{"callbacks/associations.go",
+			"\t\t\t\t\t\tsaveAssociations(db, rel, distinctElems, selectColumns, restricted, nil)", "\t\t\t\t\t\tsaveAssociations(db, rel, elems, selectColumns, restricted, nil)"}}},
+		// C14.tx-nil-guard
+		Mutant{Name: "c14-tx-rollback-without-typed-nil-test", Property: "C14", Rule: "C14.tx-nil-guard", Edits: []Edit{{"prepare_stmt.go",
+			"func (tx *PreparedStmtTX) Rollback() error {\n\tif tx.Tx != nil && !reflect.ValueOf(tx.Tx).IsNil() {", "func (tx *PreparedStmtTX) Rollback() error {\n\tif tx.Tx != nil && tx.PreparedStmtDB != nil {"}}},
+		Mutant{Name: "n126-tx-commit-typed-nil-test-as-early-return", Property: "*", Rule: "NEUTRAL", Edits: []Edit{{"prepare_stmt.go",
+			"func (tx *PreparedStmtTX) Commit() error {\n\tif tx.Tx != nil && !reflect.ValueOf(tx.Tx).IsNil() {\n\t\treturn tx.Tx.Commit()\n\t}\n\treturn ErrInvalidTransaction", "func (tx *PreparedStmtTX) Commit() error {\n\tif tx.Tx == nil || reflect.ValueOf(tx.Tx).IsNil() {\n\t\treturn ErrInvalidTransaction\n\t}\n\treturn tx.Tx.Commit()"}}},
+		// C15.finder-conds
+		Mutant{Name: "c15-take-ignores-conditions-of-maps", Property: "C15", Rule: "C15.finder-conds", Edits: []Edit{{"finisher_api.go",
+			"func (db *DB) Take(dest interface{}, conds ...interface{}) (tx *DB) {\n\ttx = db.Limit(1)\n\tif len(conds) > 0 {", "func (db *DB) Take(dest interface{}, conds ...interface{}) (tx *DB) {\n\ttx = db.Limit(1)\n\tif len(conds) > 0 && dest != nil {"}}},
+		// C16.donothing-wins
+		Mutant{Name: "c16-donothing-only-without-where", Property: "C16", Rule: "C16.donothing-wins", Edits: []Edit{{"clause/on_conflict.go",
+			"\tif onConflict.DoNothing {", "\tif onConflict.DoNothing && len(onConflict.Where.Exprs) == 0 {"}}},
+		// C17.side-writers
+		Mutant{Name: "c17-compile-clears-before-of-matched-callbacks", Property: "C17", Rule: "C17.side-writers", Edits: []Edit{{"callbacks.go",
+			"\t\tif callback.remove {\n\t\t\tremovedMap[callback.name] = true\n\t\t}", "\t\tif callback.remove {\n\t\t\tremovedMap[callback.name] = true\n\t\t\tcallback.before = \"\"\n\t\t}"}}},
+		// C19.batch-tx
+		Mutant{Name: "c19-batches-in-a-transaction-unless-dry-run", Property: "C19", Rule: "C19.batch-tx", Edits: []Edit{{"finisher_api.go",
+			"\t\tif tx.SkipDefaultTransaction || reflectLen <= batchSize {", "\t\tif tx.DryRun && tx.Error != nil || reflectLen <= batchSize {"}}},
+		Mutant{Name: "n127-batch-transaction-test-reordered", Property: "*", Rule: "NEUTRAL", Edits: []Edit{{"finisher_api.go",
+			"\t\tif tx.SkipDefaultTransaction || reflectLen <= batchSize {", "\t\tif reflectLen <= batchSize || tx.SkipDefaultTransaction {"}}},
+		// C20.index-lookup
+		Mutant{Name: "c20-lookindex-matches-the-index-class", Property: "C20", Rule: "C20.index-lookup", Edits: []Edit{{"schema/index.go",
+			"\t\t\tif index.Name == name {\n\t\t\t\treturn index\n\t\t\t}", "\t\t\tif index.Name == name || index.Class == name {\n\t\t\t\treturn index\n\t\t\t}"}}},
+	)
+}
